@@ -46,6 +46,9 @@ fn exec_line(line: &str) -> String {
     let bias = get_u(&kv, "bias");
     let la = get_u(&kv, "la");
     let zb = get_u(&kv, "zb");
+    // BlockQuantizedGemm streams: number of batch members; member b, row i is row b * rows + i of the
+    // stacked LHS, so the expected output is the product with the stacked (batch * rows) x K matrix
+    let batch = if mode < 2 { get_u(&kv, "batch").max(1) } else { 1 };
     let k = nblocks * bs;
     // whole LHS quantisation blocks forced to zero: 0 none, 1 first, 2 middle, 3 last, 4 all
     let zero_block = move |r: usize| -> bool {
@@ -73,9 +76,9 @@ fn exec_line(line: &str) -> String {
                 GemmOptions { alpha: alpha as f32, beta: beta as f32, bias: bv, a_quant: None, b_quant: None }).ok()?;
             Some(out.iter().map(|x| f32_to_int(x * 4.0)).collect())
         } else {
-            let lhs_c = NdTensor::<f32, 3>::from_fn([1, rows, k], |[_, i, j]| lhs_val(i, j));
+            let lhs_c = NdTensor::<f32, 3>::from_fn([batch, rows, k], |[b, i, j]| lhs_val(b * rows + i, j));
             let g = BlockQuantizedGemm::new().with_compute(if mode == 1 { ComputeMode::Int8 } else { ComputeMode::Float });
-            let mut out = vec![MaybeUninit::new(f32::NAN); rows * cols];
+            let mut out = vec![MaybeUninit::new(f32::NAN); batch * rows * cols];
             let res = g.batched_gemm_uninit(&mut out, lhs_c.view(), mat).ok()?;
             Some(res.iter().map(|x| if mode == 1 {
                 if x.is_finite() { (x * 1024.0).round() as i64 } else { GARBAGE }
@@ -92,13 +95,14 @@ fn exec_line(line: &str) -> String {
     };
     let term = format!(
         "{{| q_mode := {}; q_epv := {}; q_P := {{| p_mr := {}; p_nr := {}; p_mc := {}; p_nc := {}; p_kc := {} |}}; q_rows := {}; q_cols := {}; q_nblocks := {}; q_bs := {}; q_alpha := {}; q_beta := {}; q_bias := {}; q_sl := {}; q_sq := {}; q_ss := {}; q_sc := {}; q_sbias := {}; q_zb := {}; q_out := {} |}}",
-        mode, epv(), bp.mr, bp.nr, bp.mc, bp.nc, bp.kc, rows, cols, nblocks, bs, coq_z(alpha), coq_z(beta), bias, sl, sq, ss, sc, sbias, zb, outs);
+        mode, epv(), bp.mr, bp.nr, bp.mc, bp.nc, bp.kc, batch * rows, cols, nblocks, bs, coq_z(alpha), coq_z(beta), bias, sl, sq, ss, sc, sbias, zb, outs);
     let spv = (epv() / bs.max(1)).max(1);
     let tag = format!("{}{}-bs{}-{}{}", if rows * cols == 0 { "trivial-" } else { "" },
         match mode { 0 => "float".to_string(), 1 => "int8mode".to_string(), _ => format!("gemm-{}", kern) }, bs,
         if mode < 2 { format!("spv{}", spv) } else { format!("kblk{}", if bp.kc == 0 { 0 } else { k.div_ceil(bp.kc).min(3) }) },
         if mode < 2 && nblocks % spv != 0 { "-tail" } else { "" });
     let tag = if zb > 0 && nblocks > 0 { format!("{}-zeroblk", tag) } else { tag };
+    let tag = if batch > 1 { format!("{}-batch{}", tag, if rows > 1 { "-multirow" } else { "" }) } else { tag };
     format!("{}\t{}\t{}", tag, line, term)
 }
 
@@ -115,6 +119,14 @@ fn generate(seed: u64, n: usize, tier: &str, out: &mut impl Write) {
                 if mode == 1 && nb == 0 && bs != 16 { continue; }
                 writeln!(out, "Q mode={} rows={} cols={} nb={} bs={} sl={} sq={} ss={} la=0", mode, if mode == 0 { 1 + rng.below(3) } else { 1 },
                     rng.pick(&[1usize, 2, 15, 16, 17, 33]), nb, bs, rng.below(1000), rng.below(1000), rng.below(1000)).unwrap();
+            }
+        }
+        // several batch members x several rows per member (distinct rows: a permuted output is visible)
+        for batch in [2usize, 3] {
+            for m in [1usize, 2, 3, 5] {
+                let bs = rng.pick(&bss);
+                writeln!(out, "Q mode={} rows={} cols={} nb={} bs={} sl={} sq={} ss={} la=0 zb=0 batch={}", mode, m,
+                    rng.pick(&[1usize, 3, 17]), rng.pick(&[1usize, 2, 3]), bs, rng.below(1000), rng.below(1000), rng.below(1000), batch).unwrap();
             }
         }
         // LHS rows with whole quantisation blocks equal to zero (first / middle / last / all)
